@@ -12,7 +12,7 @@ for i in (1, 2):
     diff = f"/tmp/wt-{P}/MUT{i}.diff"; demo = f"/tmp/wt-{P}/MUT{i}_demo_test.go.txt"
     if not os.path.exists(diff): continue
     head = open(demo).read(3000)
-    m = re.search(r"-run\s+'?\"?([A-Za-z0-9_|^$.]+)", head)
+    m = re.search(r"\s-run\s+'?\"?([A-Za-z0-9_|^$.]+)", head)
     run = m.group(1)
     m = re.search(r"go test[^\n]*?\s(\./[A-Za-z0-9_/]+|\.)\s*$", head, re.M)
     pkg = m.group(1).strip("./").rstrip("/") if m else None
